@@ -227,3 +227,122 @@ def death_ops():
         .map(list),
         st.tuples(st.just("fault"), st.integers(1, 40), st.integers(0, 5),
                   how_strategy()).map(list))
+
+
+def lifecycle_cases(requests=('incr', 'decr', 'set', 'restart', 'reload',
+                              'stop', 'start'),
+                    max_watchers=2, hooks=False, exec_fail=False,
+                    children=0, max_ops=30, statuses_full=False,
+                    extra_watcher_opts=None, kill_cmd=False, signal_cmd=False,
+                    respawn_false=False, rm=False, quit=False):
+    """General history generator shared by several properties."""
+    from hypothesis import strategies as st
+
+    if statuses_full:
+        how = st.one_of(
+            st.tuples(st.just("exit"), st.integers(0, 255)).map(list),
+            st.tuples(st.just("signal"), st.sampled_from(
+                [1, 2, 3, 6, 9, 11, 13, 14, 15])).map(list))
+    else:
+        how = how_strategy()
+    deaths = st.one_of(
+        st.tuples(st.just("exit"), st.integers(0, 5), how).map(list),
+        st.tuples(st.just("fault"), st.integers(1, 40), st.integers(0, 5),
+                  how).map(list))
+
+    @st.composite
+    def case(draw):
+        nw = draw(st.integers(1, max_watchers))
+        watchers = []
+        gts = []
+        for i in range(nw):
+            singleton = draw(st.integers(0, 5)) == 0
+            np_ = draw(st.integers(0, 1)) if singleton else \
+                draw(st.integers(0, 3))
+            gt = draw(st.sampled_from([0.1, 0.3, 1.0]))
+            gts.append(gt)
+            wc = {"name": "w%d" % i, "numprocesses": np_,
+                  "graceful_timeout": gt,
+                  "warmup_delay": draw(st.sampled_from([0, 0, 0.05, 0.3]))}
+            if singleton:
+                wc["singleton"] = True
+            if draw(st.integers(0, 5)) == 0:
+                wc["send_hup"] = True
+            if draw(st.integers(0, 5)) == 0:
+                wc["stop_children"] = True
+            if respawn_false and draw(st.integers(0, 6)) == 0:
+                wc["respawn"] = False
+            if draw(st.integers(0, 4)) == 0:
+                wc["priority"] = draw(st.integers(0, 2))
+            if hooks and draw(st.integers(0, 2)) == 0:
+                hk = {}
+                for hn in draw(st.lists(st.sampled_from(HOOK_NAMES),
+                                        min_size=1, max_size=2,
+                                        unique=True)):
+                    hk[hn] = [draw(st.sampled_from(
+                        ['true', 'false', 'raise'])), draw(st.booleans())]
+                wc["hooks"] = hk
+            if extra_watcher_opts:
+                wc.update(draw(extra_watcher_opts))
+            watchers.append(wc)
+        names = [wc["name"] for wc in watchers]
+        tape = draw(st.lists(behaviours(gts=tuple(sorted(set(gts))),
+                                        children=children,
+                                        exec_fail=exec_fail), max_size=10))
+        name = st.sampled_from(names)
+        wt = st.booleans()
+
+        def req(cmd, props):
+            return st.tuples(st.just("req"), st.just(cmd), props).map(list)
+
+        def ww(d):
+            return st.tuples(d, wt).map(
+                lambda t: dict(t[0], waiting=True) if t[1] else t[0])
+
+        table = {
+            'incr': req('incr', ww(st.fixed_dictionaries(
+                {"name": name, "nb": st.integers(1, 2)}))),
+            'decr': req('decr', ww(st.fixed_dictionaries(
+                {"name": name, "nb": st.integers(1, 2)}))),
+            'set': req('set', ww(st.fixed_dictionaries(
+                {"name": name, "options": st.fixed_dictionaries(
+                    {"numprocesses": st.integers(0, 4)})}))),
+            'restart': req('restart', ww(st.fixed_dictionaries(
+                {"name": name, "match": st.just("simple")}))),
+            'reload': req('reload', ww(st.fixed_dictionaries(
+                {"name": name,
+                 "graceful": st.sampled_from([True, True, False]),
+                 "sequential": st.booleans()}))),
+            'stop': req('stop', ww(st.one_of(
+                st.fixed_dictionaries({"name": name,
+                                       "match": st.just("simple")}),
+                st.just({})))),
+            'start': req('start', ww(st.one_of(
+                st.fixed_dictionaries({"name": name,
+                                       "match": st.just("simple")}),
+                st.just({})))),
+        }
+        pool = [table[r] for r in requests]
+        if kill_cmd:
+            pool.append(req('kill', ww(st.fixed_dictionaries(
+                {"name": name}, optional={
+                    "signum": st.sampled_from([15, 2, 10, "HUP"]),
+                    "graceful_timeout": st.sampled_from([0.1, 0.25])}))))
+        if signal_cmd:
+            pool.append(req('signal', st.fixed_dictionaries(
+                {"name": name, "signum": st.sampled_from([15, 1, 10, 9])})))
+        if rm:
+            pool.append(req('rm', ww(st.fixed_dictionaries(
+                {"name": name}, optional={"nostop": st.booleans()}))))
+        if quit:
+            pool.append(req('quit', ww(st.just({}))))
+        reqs = st.one_of(*pool)
+        ops = draw(st.lists(st.one_of(reqs, reqs, pacing_ops(),
+                                      pacing_ops(), deaths, deaths),
+                            min_size=1, max_size=max_ops))
+        c = {"watchers": watchers, "tape": tape, "ops": ops}
+        if draw(st.integers(0, 3)) == 0:
+            c["arbiter"] = {"warmup_delay": draw(st.sampled_from(
+                [0.05, 0.2]))}
+        return c
+    return case()
